@@ -14,6 +14,7 @@ import PpciVerif.Gen.Instrs
   tfits  <isa> <token> <field> <value>               SPEC: value representable in the field        → ok true|false
   tpack  <isa> <token> <bit_value>                   → ok <hex>          tunpack <isa> <token> <hex> → ok <bit_value>
   rapply <isa> <reloc> <addend> <S> <hex> <P>        model of Relocation.apply                     → ok <hex> | err E
+  canshrink <S> <P>                                  model of CBImm11/CBlImm11Relocation.can_shrink               → ok true|false | err E
   rtarget <isa> <reloc> <hex> <P>                    SPEC: address designated by the relocated bytes → ok <int>|none
   rrep   <isa> <reloc> <S> <A> <P>                   SPEC: representable                           → ok true|false
   rhilo  <hexhi> <hexlo>                             SPEC: value of a riscv hi/lo instruction pair → ok <int>
@@ -92,6 +93,10 @@ def step (line : String) : String :=
       | some r => showE toHex r
       | none => "bad-op"
     | _, _, _, _ => "bad-op"
+  | ["canshrink", s, p] =>
+    match int? s, int? p with
+    | some s, some p => showE showB (Model.Reloc.Rvc.canShrink s p)
+    | _, _ => "bad-op"
   | ["rtarget", isa, name, h, p] =>
     match fromHex h, int? p with
     | some bs, some p =>
